@@ -118,4 +118,6 @@ def contracts():
     out = []
     for L in G.LAYOUTS:
         out += [sample_contract(L, True), sample_contract(L, False), sample_contract(L, True, batch=(2,))]
+    # two batch axes of different extent: the requested shape is prepended in the requested order
+    out += [sample_contract(G.LAYOUTS[0], True, batch=(1, 2)), sample_contract(G.LAYOUTS[1], False, batch=(2, 1))]
     return out
